@@ -128,9 +128,30 @@ package transport
 //@ modifies elems(buf)
 //@ extern time Now
 //@ extern time (t Time) Add
+// ---------------------------------------------------------------- the frame header codec, byte level (C13)
+// be16/be32/be64: the big-endian value of the bytes at offset o (spec functions). The accessors of
+// encoding/binary are modelled exactly by the verifier (byte k of the representation is
+// (v div 256^w) mod 256); the header encoder and decoder are verified against the spec functions: each field is written to and read
+// from the same offsets with the same width, the fields do not overlap, the decoder restores the
+// checksum field it blanks (when it accepts) and accepts only the two known methods -- so decode(encode(h)) == h.
+//@ pure be16(b []byte, o int) := b[o] * 256 + b[o + 1]
+//@ pure be32(b []byte, o int) := b[o] * 16777216 + b[o + 1] * 65536 + b[o + 2] * 256 + b[o + 3]
+//@ pure be64(b []byte, o int) := b[o] * 72057594037927936 + b[o + 1] * 281474976710656 + b[o + 2] * 1099511627776 + b[o + 3] * 4294967296 + b[o + 4] * 16777216 + b[o + 5] * 65536 + b[o + 6] * 256 + b[o + 7]
+
+//@ func (h *requestHeader) encode [C13]
+//@ modifies elems(buf)
+//@ ensures len(result) == 18 && ptr(result) == ptr(buf)
+//@ ensures be16(result, 0) == h.method && be64(result, 2) == h.size && be32(result, 14) == h.crc
+//@ ensures forall i int :: 18 <= i && i < len(buf) ==> buf[i] == old(buf[i])
+
 //@ func (h *requestHeader) decode [C13]
-//@ trusted parses and checks the fixed-size header (method, size, checksums)
-//@ modifies *h
+//@ modifies *h, elems(buf)
+//@ ensures result ==> len(buf) >= 18 && h.method == be16(buf, 0) && h.size == be64(buf, 2) && h.crc == be32(buf, 14) && (h.method == raftType || h.method == snapshotType)
+//@ ensures !result ==> h.method == old(h.method) && h.size == old(h.size) && h.crc == old(h.crc)
+// the decoder blanks the header checksum field while it recomputes the checksum; every other byte is
+// untouched, and on acceptance the field holds its original value again
+//@ ensures forall i int :: 0 <= i && i < len(buf) && (i < 10 || i >= 14) ==> buf[i] == old(buf[i])
+//@ ensures result ==> be32(buf, 10) == old(be32(buf, 10))
 
 //@ func readMessage [C13]
 //@ noframe
